@@ -589,9 +589,15 @@ def _canon(src_or_node, globals_):
     import copy
     node = copy.deepcopy(node)
     order = {}
-    # ast.walk is breadth-first; number names in source order instead
-    names = sorted((n for n in ast.walk(node) if isinstance(n, ast.Name)), key=lambda n: (n.lineno, n.col_offset))
-    for n in names:
+    # ast.walk is breadth-first; number names in structural (depth-first) order instead - not by line/column: rewritten trees
+    # carry positions of several places of the source
+    def dfs(x):
+        if isinstance(x, ast.Name):
+            yield x
+        for c in ast.iter_child_nodes(x):
+            for y in dfs(c):
+                yield y
+    for n in dfs(node):
         if n.id in globals_ or hasattr(_builtins, n.id) or n.id in ('self', 'cls'):
             continue
         if n.id not in order:
@@ -760,8 +766,13 @@ def f16_runtime_layout(ctx, L):
          'struct alignment is the maximum slot alignment of its members'),
         ('_SIZE+=', 'cls._SIZE += sum(get_padded_sizes())', 'the struct size includes the inter-field and end padding'),
     ]
+    # the optional-aware accessors of prophy.composite (whose bodies F15 confirms) say the same as the inline selection
+    acc = dict((v, k) for k, v in optional_aware_helpers(ctx.py.mod('prophy.composite')).items())
+    alt = {'_SIZE': 'cls._SIZE = sum((%s(type_) for type_ in cls._types()))' % acc.get('_SIZE', '?'),
+           '_ALIGNMENT': 'cls._ALIGNMENT = max((%s(t) for t in cls._types()))' % acc.get('_ALIGNMENT', '?')}
     for k, src, why in checks:
-        L.check(has(f, src), 'F16.layout-formula', 'struct_generator.add_attributes|' + k, f.site(), why + ' (expected `%s`)' % src, '')
+        L.check(has(f, src) or (k in alt and has(f, alt[k])), 'F16.layout-formula', 'struct_generator.add_attributes|' + k, f.site(),
+                why + ' (expected `%s`)' % src, '')
     # the block (partial) alignment fold: reversed walk, seed 1, reset after a dynamic field, max aggregator
     loops = [n for n in f.node.body if isinstance(n, ast.For)]
     fold = [l for l in loops if 'reversed(' in unparse(l.iter)]
@@ -1092,7 +1103,14 @@ def _sem(node, params, defs, globals_, order=None):
     wrap = _cn.normalise(wrap)
     if order is None:
         order = {}
-    for n in sorted((n for n in ast.walk(wrap) if isinstance(n, ast.Name)), key=lambda n: (getattr(n, 'lineno', 0), getattr(n, 'col_offset', 0))):
+    def dfs(node):
+        # structural order (rewritten trees carry line numbers of several places of the source: positions do not order them)
+        if isinstance(node, ast.Name):
+            yield node
+        for c in ast.iter_child_nodes(node):
+            for x in dfs(c):
+                yield x
+    for n in dfs(wrap):
         if n.id in globals_ or hasattr(_builtins, n.id) or n.id in ('self', 'cls') or n.id.startswith('_P'):
             continue
         if n.id not in order:
@@ -1156,6 +1174,17 @@ def expected_facts(guard, holds, params, module=None):
 def knows(f, node, guard, holds, params=None):
     """Is `guard` known to hold (or to fail) whenever `node` is reached?"""
     return expected_facts(guard, holds, params if params is not None else f.params, f.module) <= facts(f, node)
+
+
+def knows_fails(f, node, guard, params=None):
+    """Is `guard` known to be false whenever `node` is reached? A conjunction is false as soon as one conjunct is known to be
+    false (`if not size: return value` has left the test `size and len(value) > size` behind just as well as failing it has)."""
+    if knows(f, node, guard, False, params):
+        return True
+    e = ast.parse(guard.strip(), mode='eval').body
+    if isinstance(e, ast.BoolOp) and isinstance(e.op, ast.And):
+        return any(knows_fails(f, node, ast.unparse(v), params) for v in e.values)
+    return False
 
 
 class _FakeFunc(object):
